@@ -65,8 +65,13 @@ def cases(tier, seed):
 
     for i in range(24 if q else 600):
         a = prob(6)
-        yield {"kind": "repeat", "items": [{"problem": a, "cfg": small_cfg(rng)}, {"problem": twin(a), "cfg": small_cfg(rng)},
-                                           {"problem": prob(6), "cfg": small_cfg(rng)}]}
+        items = [{"problem": a, "cfg": small_cfg(rng)}, {"problem": twin(a), "cfg": small_cfg(rng)}, {"problem": prob(6), "cfg": small_cfg(rng)}]
+        if i % 2 == 1:
+            # a run on an objective that is nan / +inf on part of its domain, with a starved line search: it ends inside a failed
+            # search, and whatever that leaves behind must not reach the runs made afterwards
+            wild = gen.rand_spec(rng, ("qp_nan_region", "qp_inf_region", "edge_walk", "log_barrier", "exp_wall"), nmax=4, nmin=2, boxes=("none",), starts=("interior",))
+            items.insert(1, {"problem": wild, "cfg": dict(small_cfg(rng, "callable"), maxls=int(gen.pick(rng, [1, 2])), maxiter=int(rng.integers(3, 12)))})
+        yield {"kind": "repeat", "items": items}
     for i in range(48 if q else 600):
         cfg = small_cfg(rng, "callable")
         yield {"kind": "restart2", "problem": prob(6), "cfg": cfg, "scaler": gen.pick(rng, [None, 0.01, 3.0, "packaged"]),
@@ -124,7 +129,9 @@ def run_item(item, hooks=None):
 
 def case_repeat(spec, out):
     want = fresh.fresh_digests(spec["items"])
-    order = [0, 1, 0, 2, 1, 0, 2, 2, 1]
+    order = [0, 1, 0, 2, 1, 0, 2, 2, 1] if len(spec["items"]) == 3 else [0, 1, 2, 0, 3, 1, 2, 0, 3, 3, 1, 2]
+    if len(spec["items"]) == 4:
+        out.count("repeat_cases_with_a_run_ending_inside_a_failed_search")
     for k, i in enumerate(order):
         compare(out, digest_of(run_item(spec["items"][i])), want[i], f"repeat: call #{k} (problem {i}) after {order[:k]}", dict(kind="repeat"))
         if out.violations:
